@@ -492,7 +492,12 @@ def r1_7(ctx: Ctx) -> None:
                     base = v.func.value
                     attr = base.attr if isinstance(base, ast.Attribute) else None
                     key = ctx.key(f, f"{unparse(v)[:50]} dereferenced")
-                    if attr in removable and membership_guarded(f, node, unparse(base), unparse(v.args[0])):
+                    karg = v.args[0]
+                    own_key = (isinstance(karg, ast.Call) and call_name(karg) == "next" and karg.args and isinstance(karg.args[0], ast.Call)
+                               and call_name(karg.args[0]) == "iter" and karg.args[0].args and unparse(karg.args[0].args[0]) == unparse(base))
+                    if own_key:
+                        ctx.ok("R1.7", key, f.loc(node), f"`{unparse(node)[:60]}`: the key is taken from the mapping itself")
+                    elif attr in removable and membership_guarded(f, node, unparse(base), unparse(v.args[0])):
                         ctx.ok("R1.7", key, f.loc(node), f"`{unparse(node)[:60]}`: reached only past a membership test of `{attr}`")
                     elif attr in removable:
                         ctx.fail("R1.7", key, f.loc(node),
